@@ -140,9 +140,10 @@ def short_catalog():
     mq0 = MiniQpack()
     REQ = h3frame(T_HEADERS, mq0.block(REQ_LINES))  # 8 bytes
     RESP = h3frame(T_HEADERS, mq0.block(RESP_LINES))  # 5 bytes
-    TRL0 = h3frame(T_HEADERS, mq0.block([]))  # 4 bytes: empty trailer section
+    TRL0 = h3frame(T_HEADERS, mq0.block([]))  # 4 bytes: empty field section (pylsqpack's decoder rejects it)
+    TRL = h3frame(T_HEADERS, mq0.block([("s", 29)]))  # 5 bytes: trailer section "accept: */*"
     PP = h3frame(T_PUSH_PROMISE, enc_varint(3) + mq0.block(PP_LINES))
-    assert len(REQ) == 8 and len(RESP) == 5 and len(TRL0) == 4, (len(REQ), len(RESP), len(TRL0))
+    assert len(REQ) == 8 and len(RESP) == 5 and len(TRL0) == 4 and len(TRL) == 5, (len(REQ), len(RESP), len(TRL0))
 
     def D(b, **kw):
         return h3frame(T_DATA, b, **kw)
@@ -156,15 +157,15 @@ def short_catalog():
     add("req+G0+D1", False, REQ + h3frame(0x21, b"") + D(b"x"))
     add("req+D1+G1", False, REQ + D(b"x") + h3frame(0x21, b"z"), truncs=True)
     add("req+G2", False, REQ + h3frame(0x21, b"zz"))
-    add("req+trl", False, REQ + TRL0)
-    add("req+D0+trl", False, REQ + D(b"") + TRL0, truncs=True)
+    add("req+trl", False, REQ + TRL, truncs=True)
+    add("req+emptytrl", False, REQ + TRL0)
     add("req+D2(len2)", False, REQ + D(b"xy", lsize=2))
     add("req+D1(type2)", False, REQ + D(b"x", tsize=2))
     add("req+G1(type2)", False, REQ + h3frame(0x21 + 0x1F * 5, b"q", tsize=2, lsize=2))
     add("req+reserved", False, REQ + h3frame(0x2, b""))
     add("req+settings", False, REQ + h3frame(T_SETTINGS, b""))
     add("D1-first", False, D(b"x") + REQ)
-    add("req+trl+D0", False, REQ + TRL0 + D(b""))
+    add("resp+trl+D0", True, RESP + TRL + D(b""))
     add("req+PP", False, REQ + h3frame(T_PUSH_PROMISE, b"\x00"))
     add("req+D-declared-longer", False, REQ + D(b"abc", declared=5))  # F12 shape
     add("fin-only", False, b"")
@@ -175,8 +176,10 @@ def short_catalog():
     for k in (0, 1, 2, 3, 5, 7):
         add("resp+D%d" % k, True, RESP + D(b"abcdefg"[:k]), truncs=(k == 7))
     add("resp+D2+D3", True, RESP + D(b"ab") + D(b"cde"), truncs=True)
-    add("resp+D1+trl", True, RESP + D(b"x") + TRL0)
-    add("resp+D0+G0+trl", True, RESP + D(b"") + h3frame(0x21, b"") + TRL0)
+    add("resp+D1+trl", True, RESP + D(b"x") + TRL, truncs=True)
+    add("resp+D0+G0+trl", True, RESP + D(b"") + h3frame(0x21, b"") + TRL)
+    add("resp+D2+trl", True, RESP + D(b"xy") + TRL)
+    add("resp+trl+trl", True, RESP + TRL + TRL[:4])
     add("resp+G3+D2", True, RESP + h3frame(0x21, b"abc") + D(b"xy"))
     add("resp+D3+G0", True, RESP + D(b"abc") + h3frame(0x21, b""))
     add("resp+D(len8)", True, RESP + D(b"", lsize=8))
@@ -533,6 +536,8 @@ def gen_frames_case(rng: random.Random):
                 lines.append(rng.choice([("s", 29), ("s", 53), ("sn", 95, _value(rng, 9)), ("sn", 5, b"a=b; c=" + _value(rng, 5))]))
             else:
                 lines.append(("l", name, _value(rng)))
+        if kind == "trl" and not lines:
+            lines.append(("s", 29))  # an empty field section is rejected by pylsqpack's decoder
         if body_len is not None:
             lines.append(("sn", 4, b"%d" % body_len))
         if fault == "uppercase-name" and kind in ("req", "resp") and c.faults == 0:
@@ -576,7 +581,8 @@ def gen_frames_case(rng: random.Random):
             out += h3frame(T_HEADERS, rng.choice([b"", b"\x00"]))
             c.faults = 1
         elif fault == "bad-qpack" and c.faults == 0:
-            out += h3frame(T_HEADERS, _payload(rng, rng.choice([2, 3, 9, 40])))
+            # Required Insert Count 0: the garbage can never block, so its fate does not depend on the order
+            out += h3frame(T_HEADERS, b"\x00" + _payload(rng, rng.choice([2, 3, 9, 40])))
             c.faults = 1
         else:
             blk = mq.block(header_lines(kind, cl, allow_dyn=dyn_streams < 10, pad_to=pad))
